@@ -1,5 +1,6 @@
 //! Rust-side engines (exhaustive enumerations with in-Rust reference models) and shared helpers.
 pub mod c11;
+pub mod c14;
 pub mod c15;
 #[cfg(feature = "fmt")]
 pub mod fmtops;
@@ -21,6 +22,7 @@ pub fn main(args: &[String]) {
     let kv = parse_kv(&args[1.min(args.len())..]);
     let _ = &kv;
     match name {
+        "c14" => println!("{}", c14::run(&kv)),
         "c15" => println!("{}", c15::run(&kv)),
         _ => {
             eprintln!("unknown engine {}", name);
